@@ -24,7 +24,7 @@ Tok == [k \in Texts \X {2} |-> [ms |-> IF k[1] = <<>> THEN <<>> ELSE <<M(k[1])>>
 VARIABLES input, args, analysed
 mvars == <<cvars, input, args, analysed>>
 
-ArgSet == {[mode |-> 2, all |-> a, wakati |-> w, split |-> s] : a \in {FALSE}, w \in BOOLEAN, s \in BOOLEAN}
+ArgSet == {[mode |-> 2, all |-> a, wakati |-> w, split |-> s, only |-> o, files |-> FALSE] : a \in {FALSE}, w \in BOOLEAN, s \in BOOLEAN, o \in BOOLEAN}
 
 MInit == /\ input \in Inputs /\ args \in ArgSet /\ CInit(input) /\ analysed = <<>>
 MStep == /\ ProcessLine(args, Sent, Tok)
@@ -41,7 +41,9 @@ NoTerminatorAnalysed == \A i \in 1..Len(analysed) :
     /\ (a.raw = <<>> \/ a.raw[Len(a.raw)] # LF) => a.line = a.raw
 MachineIsRun == rest = <<>> => outp = Run(input, args, Sent, Tok)
 BlankLineEmpty == (rest = <<>> /\ input \in {<<LF>>, <<CR, LF>>}) =>
-                    outp = (IF args.split THEN <<>> ELSE IF args.wakati THEN <<LF>> ELSE EOS)
+                    outp = (IF args.only \/ args.split THEN <<>> ELSE IF args.wakati THEN <<LF>> ELSE EOS)
+\* sentence splitting alone loses nothing: with an oracle whose sentences tile the line, the output is the input without its line terminators
+OnlyKeepsText == (rest = <<>> /\ args.only) => outp = Flatten(StrippedLines(input))
 
-Emit == (rest = <<>> /\ args = [mode |-> 2, all |-> FALSE, wakati |-> FALSE, split |-> TRUE]) => PrintT(<<"REPLAY", ToJson([input |-> input])>>)
+Emit == (rest = <<>> /\ args = [mode |-> 2, all |-> FALSE, wakati |-> FALSE, split |-> TRUE, only |-> FALSE, files |-> FALSE]) => PrintT(<<"REPLAY", ToJson([input |-> input])>>)
 =============================================================================
